@@ -122,3 +122,52 @@ CHECKS["C17"] = {
         "sync.RWMutex modelled as a lock bit; unbuffered channels as 1-slot buffers",
     ],
 }
+
+# ---------------------------------------------------------------------------------------------------------------
+def _c06_patterns(k, cands=None):
+    """kind patterns (base-3 digits, little endian: 0 store, 1 query, 2 expiry) without two expiries in a row
+    (an expiry only takes effect at the next store)."""
+    out = []
+    for ops in (cands if cands is not None else range(3 ** k)):
+        d, x, ok, pend = [], ops, True, False
+        for _ in range(k):
+            d.append(x % 3)
+            x //= 3
+        for op in d:
+            if op == 2:
+                if pend:
+                    ok = False
+                pend = True
+            elif op == 0:
+                pend = False
+        if ok:
+            out.append(ops)
+    return out
+
+
+CHECKS["C06"] = {
+    "pkg": "./core/dutydb",
+    "parallel": 8,
+    "quick": [
+        {"harness": "VerifC06Att", "params": {"k": 3, "ops": _c06_patterns(3), "rev": 0}},
+        {"harness": "VerifC06Att", "params": {"k": 4, "ops": [30, 33, 19, 27], "rev": 0}},
+        {"harness": "VerifC06Att", "params": {"k": 3, "ops": [0, 3, 9, 18], "rev": 1}, "reversemaps": True},
+        {"harness": "VerifC06Await", "params": {}},
+    ],
+    "thorough": [
+        {"harness": "VerifC06Att", "params": {"k": 4, "ops": _c06_patterns(4), "rev": 0}, "timeout_ms": 300000},
+        {"harness": "VerifC06Att", "params": {"k": 4, "ops": _c06_patterns(4, range(0, 81, 3)), "rev": 1}, "reversemaps": True, "timeout_ms": 300000},
+        {"harness": "VerifC06Att", "params": {"k": 5, "ops": [90, 99, 57, 81, 84, 111, 120], "rev": 0}, "timeout_ms": 300000},
+        {"harness": "VerifC06Await", "params": {}, "cross": True},
+    ],
+    "bounds": {
+        "quick": "attester duties: every sequence of k=3 operations (Store of a two-entry set / registration of a blocking query / expiry of a slot; 27 kind patterns, plus 4 patterns of length 4) over 2 slots x 3 committee indices x 2 validator indices, with slot, committee, validator, head, source and target symbolic; both map iteration orders for the two-entry sets on selected patterns; the real AwaitAttestation immediate and blocked-then-woken; expired duty refused",
+        "thorough": "all 81 kind patterns of length 4, selected patterns of length 5",
+    },
+    "outside": "proposal, aggregate-attestation and sync-contribution stores (their versioned go-eth2-client types are not encoded; the clash logic has the same shape); histories continuing after a failed multi-entry store; cancellation of queries; real SSZ/JSON (Clone = structural deep copy, String()/HashTreeRoot() = ideal injective functions of all fields); arbitrary pre-emption (one mutex: sequences of whole critical sections)",
+    "assumptions": [
+        "core data Clone() is a structural deep copy; go-eth2-client String() and HashTreeRoot() are injective functions of the full field tuple",
+        "blocking queries are registered exactly as AwaitAttestation does (append + resolve under the lock) and observed through their response channels",
+        "Duty.Slot equals Data.Slot in stored attestations",
+    ],
+}
